@@ -109,6 +109,8 @@ def mk_bin(op, a, b):
 
 
 def mentions(e, pred):
+    if not isinstance(e, tuple) or not e:
+        return False
     if pred(e):
         return True
     if isinstance(e, tuple):
@@ -131,6 +133,7 @@ class Ctx:
         self.nmark = 0
         self.notes = []
         self.arrlen = {}
+        self.noinline = []          # extra regexes of callees that must stay opaque calls
 
     def loop_id(self):
         self.nloop += 1
@@ -227,6 +230,20 @@ class Interp:
                 return ("c", v, op["cdef"])
             if "param" in op:
                 return ("cparam", op["param"])
+            if "static" in op:
+                return ("static", op["static"])
+            if op.get("promoted"):
+                pid = re.sub(r"::<[^<>]*>::promoted", "::promoted", op.get("s") or "")
+                pb = self.facts.bodies.get(pid) or self.facts.bodies.get(op.get("s") or "")
+                if pb is not None and self.depth < 8:
+                    try:
+                        sub = Interp(self.ctx, pb, [], self.depth + 1)
+                        sub.run()
+                        if sub.retval is not None:
+                            self.note_array(sub.retval, op.get("ty"))
+                            return sub.retval
+                    except Undecided:
+                        pass
             v = op.get("sv", op.get("v"))
             if v is None:
                 v = op.get("s")
@@ -488,7 +505,7 @@ class Interp:
     def try_inline(self, fn, args):
         if self.depth >= 5 or not fn.get("local", True) and fn.get("res") not in self.facts.bodies:
             return None
-        if fn_is(fn, NOINLINE):
+        if fn_is(fn, NOINLINE) or (self.ctx.noinline and fn_is(fn, self.ctx.noinline)):
             return None
         cid = None
         for cand in (fn.get("res"), fn.get("def")):
@@ -751,10 +768,10 @@ class Interp:
             if v == lc:
                 steps[l] = C(0)
             elif isinstance(v, tuple) and v[0] == "bin" and v[1] == "Add" and v[2] == lc \
-                    and not mentions(v[3], lambda e: isinstance(e, tuple) and e[0] == "lc" and e[1] == lid):
+                    and not mentions(v[3], lambda e: isinstance(e, tuple) and len(e) > 1 and e[0] == "lc" and e[1] == lid):
                 steps[l] = v[3]
             elif isinstance(v, tuple) and v[0] == "bin" and v[1] == "Add" and v[3] == lc \
-                    and not mentions(v[2], lambda e: isinstance(e, tuple) and e[0] == "lc" and e[1] == lid):
+                    and not mentions(v[2], lambda e: isinstance(e, tuple) and len(e) > 1 and e[0] == "lc" and e[1] == lid):
                 steps[l] = v[2]
             else:
                 steps[l] = None
@@ -768,7 +785,7 @@ class Interp:
                                 % (h, b.id, show(cond)))
             ivl = c[2][2]
             bound = c[3]
-            if mentions(bound, lambda e: isinstance(e, tuple) and e[0] == "lc" and e[1] == lid):
+            if mentions(bound, lambda e: isinstance(e, tuple) and len(e) > 1 and e[0] == "lc" and e[1] == lid):
                 raise Undecided("while loop at bb%d of %s: bound is not loop invariant" % (h, b.id))
             st = steps.get(ivl)
             if not is_c(st) or st[1] <= 0:
@@ -791,7 +808,7 @@ class Interp:
                     self.env[l] = ("?", "loop-carried _%d" % l)
                 elif is_c(st, 0):
                     self.env[l] = pre_env.get(l, ("?", "init"))
-                elif desc[0] == "range" and not mentions(st, lambda e: isinstance(e, tuple) and e[0] in ("idx", "elem")
+                elif desc[0] == "range" and not mentions(st, lambda e: isinstance(e, tuple) and len(e) > 1 and e[0] in ("idx", "elem")
                                                          and e[1] == lid):
                     # invariant step: v = init + (idx - lo) * step
                     k = mk_bin("Sub", ("idx", lid), desc[2])
@@ -874,9 +891,9 @@ def desc_var(desc):
 
 def subst_lc(e, lid, env2, carried, iv_local):
     """Replace ('lc', lid, l) in a step expression by the pass-2 closed form of l."""
-    if not isinstance(e, tuple):
+    if not isinstance(e, tuple) or not e:
         return e
-    if e[0] == "lc" and e[1] == lid:
+    if e[0] == "lc" and len(e) > 2 and e[1] == lid:
         return env2.get(e[2], ("?", "lc"))
     return tuple(subst_lc(x, lid, env2, carried, iv_local) if isinstance(x, tuple) else x for x in e)
 
@@ -929,7 +946,190 @@ def show(e):
         return "map(%s, %s)" % (show(e[1]), show(e[2]))
     if k == "fn":
         return "fn " + str(e[1])
+    if k == "static":
+        return "static " + str(e[1])
     return str(e)
+
+
+def evalc(e, env=None, bits=64):
+    """Constant-fold a closed expression tree (table rows): ints only; returns None if not closed."""
+    env = env or {}
+    if not isinstance(e, tuple):
+        return None
+    k = e[0]
+    if k in env:
+        return env[k]
+    if e in env:
+        return env[e]
+    if k == "c":
+        return e[1] if isinstance(e[1], int) else None
+    if k == "cast":
+        v = evalc(e[2], env)
+        if v is None:
+            return None
+        w = INT_BITS.get(e[1])
+        if w is None:
+            return v
+        v &= (1 << w) - 1
+        if e[1].startswith("i") and v >= 1 << (w - 1):
+            v -= 1 << w
+        return v
+    if k == "bin":
+        a, b = evalc(e[2], env), evalc(e[3], env)
+        if a is None or b is None:
+            return None
+        op = e[1]
+        try:
+            return {"Add": lambda: a + b, "Sub": lambda: a - b, "Mul": lambda: a * b, "Div": lambda: a // b,
+                    "Rem": lambda: a % b, "Shl": lambda: a << b, "Shr": lambda: a >> b, "BitOr": lambda: a | b,
+                    "BitAnd": lambda: a & b, "BitXor": lambda: a ^ b, "Lt": lambda: int(a < b),
+                    "Le": lambda: int(a <= b), "Gt": lambda: int(a > b), "Ge": lambda: int(a >= b),
+                    "Eq": lambda: int(a == b), "Ne": lambda: int(a != b)}[op]()
+        except (KeyError, ZeroDivisionError, ValueError):
+            return None
+    if k == "call" and re.search(r"leading_zeros$", e[1]) and len(e[2]) == 1:
+        v = evalc(e[2][0], env)
+        m = re.search(r"impl (u\d+|usize)>", e[1])
+        w = INT_BITS.get(m.group(1), 32) if m else 32
+        if v is None or v < 0:
+            return None
+        return w - v.bit_length()
+    if k == "case":
+        d = evalc(e[1], env)
+        if d is None:
+            return None
+        other = None
+        for lab, v in e[2]:
+            labs = lab if isinstance(lab, tuple) else (lab,)
+            if d in labs:
+                return evalc(v, env)
+            if "else" in labs:
+                other = v
+        return evalc(other, env) if other is not None else None
+    return None
+
+
+def evalv(e, env, facts):
+    """Evaluate a closed value expression for one table row: ints and enum/struct aggregates.
+    env maps parameter index -> value.  Returns int | ('agg', adt, variant, (values...)) | None."""
+    if not isinstance(e, tuple):
+        return None
+    k = e[0]
+    if k == "c":
+        return e[1] if isinstance(e[1], int) else None
+    if k == "p":
+        v = env.get(e[1])
+        return _vproj(v, list(e[2]))
+    if k == "agg":
+        vals = tuple(evalv(x, env, facts) for x in e[3])
+        return ("agg", e[1], e[2], vals)
+    if k == "proj":
+        return _vproj(evalv(e[1], env, facts), list(e[2]))
+    if k == "discr":
+        v = evalv(e[1], env, facts)
+        if isinstance(v, tuple) and v[0] == "agg":
+            if v[1] == "std::option::Option":
+                return {"None": 0, "Some": 1}.get(v[2])
+            if v[1] == "std::result::Result":
+                return {"Ok": 0, "Err": 1}.get(v[2])
+            adt = facts.adts.get(v[1])
+            if adt:
+                for i, var in enumerate(adt["variants"]):
+                    if var["name"] == v[2]:
+                        return var.get("discr", i) if var.get("discr") is not None else i
+        return None
+    if k == "cast":
+        v = evalv(e[2], env, facts)
+        if isinstance(v, tuple) and v[0] == "agg" and not v[3]:
+            v = evalv(("discr", e[2]), env, facts)          # fieldless enum `as` integer
+        if not isinstance(v, int):
+            return None
+        w = INT_BITS.get(e[1])
+        if w is None:
+            return v
+        v &= (1 << w) - 1
+        if e[1].startswith("i") and v >= 1 << (w - 1):
+            v -= 1 << w
+        return v
+    if k == "bin":
+        a, b = evalv(e[2], env, facts), evalv(e[3], env, facts)
+        if not isinstance(a, int) or not isinstance(b, int):
+            return None
+        return evalc(("bin", e[1], C(a), C(b)))
+    if k == "ovf":
+        return evalv(e[1], env, facts)
+    if k == "call" and re.search(r"leading_zeros$", e[1]) and len(e[2]) == 1:
+        v = evalv(e[2][0], env, facts)
+        if not isinstance(v, int):
+            return None
+        return evalc(("call", e[1], (C(v),)))
+    if k == "call" and re.search(r"is_power_of_two$", e[1]) and len(e[2]) == 1:
+        v = evalv(e[2][0], env, facts)
+        return int(v > 0 and v & (v - 1) == 0) if isinstance(v, int) else None
+    if k == "call" and re.search(r"RangeInclusive<.*>::contains|RangeInclusive::<.*>::contains", e[1]) and len(e[2]) == 2:
+        r = e[2][0]
+        x = evalv(e[2][1], env, facts)
+        if isinstance(r, tuple) and r[0] == "call" and re.search(r"RangeInclusive::<.*>::new$|RangeInclusive<.*>::new$", r[1]):
+            lo, hi = evalv(r[2][0], env, facts), evalv(r[2][1], env, facts)
+            if all(isinstance(z, int) for z in (lo, hi, x)):
+                return int(lo <= x <= hi)
+        return None
+    if k == "call" and re.search(r"ops::Range<.*>::contains|ops::Range::<.*>::contains", e[1]) and len(e[2]) == 2:
+        r = e[2][0]
+        x = evalv(e[2][1], env, facts)
+        if isinstance(r, tuple) and r[0] == "agg" and r[1] == "std::ops::Range":
+            lo, hi = evalv(r[3][0], env, facts), evalv(r[3][1], env, facts)
+            if all(isinstance(z, int) for z in (lo, hi, x)):
+                return int(lo <= x < hi)
+        return None
+    if k == "call" and re.search(r"Option::<.*>::unwrap_or$", e[1]) and len(e[2]) == 2:
+        v = evalv(e[2][0], env, facts)
+        if isinstance(v, tuple) and v[0] == "agg" and v[2] == "Some":
+            return v[3][0]
+        if isinstance(v, tuple) and v[0] == "agg" and v[2] == "None":
+            return evalv(e[2][1], env, facts)
+        return None
+    if k == "case":
+        d = evalv(e[1], env, facts)
+        if not isinstance(d, int):
+            return None
+        other = None
+        for lab, v in e[2]:
+            labs = lab if isinstance(lab, tuple) else (lab,)
+            if d in labs:
+                return evalv(v, env, facts)
+            if "else" in labs:
+                other = v
+        return evalv(other, env, facts) if other is not None else None
+    return None
+
+
+def _vproj(v, p):
+    p = [x for x in p if x != "*"]
+    while p:
+        if not (isinstance(v, tuple) and v[0] == "agg"):
+            return None
+        x = p.pop(0)
+        if x.startswith("@"):
+            if v[2] != x[1:]:
+                return None
+            continue
+        m = re.match(r"^\.(\d+)$", x)
+        if not m or int(m.group(1)) >= len(v[3]):
+            return None
+        v = v[3][int(m.group(1))]
+    return v
+
+
+def walk_expr(e):
+    """All tuple sub-expressions (pre-order), descending through argument tuples."""
+    if isinstance(e, tuple) and e:
+        if isinstance(e[0], str):
+            yield e
+        for x in e:
+            if isinstance(x, tuple):
+                for y in walk_expr(x):
+                    yield y
 
 
 def show_desc(d):
@@ -975,6 +1175,8 @@ def canon(e):
         return "discr(%s)" % canon(e[1])
     if k == "storage":
         return "storage(%s)" % e[1]
+    if k == "static":
+        return "static(%s)" % e[1]
     if k in ("iter", "collect", "itersum"):
         return "%s(%s)" % (k, canon(e[1]))
     if k == "map":
@@ -1340,9 +1542,10 @@ def fold_pushes(events, vec_key, norm):
     return total
 
 
-def analyse(facts, body, args=None):
+def analyse(facts, body, args=None, noinline=()):
     """Returns (events, retval expr, ctx) for a body."""
     ctx = Ctx(facts)
+    ctx.noinline = list(noinline)
     it = Interp(ctx, body, args)
     ev = it.run()
     return ev, it.retval, ctx
